@@ -10,7 +10,8 @@ from pathlib import Path
 
 V = Path(__file__).resolve().parent.parent
 PROP_OF = [  # (regex on commit subject, property)
-    (r"Evaluator\.close\(\)", "C01"), (r"queued evaluators", "C17"), (r"utopia point", "C05"),
+    (r"Evaluator\.close\(\)|own copy of a submitted configuration", "C01"), (r"gather_other_jobs_done collects", "C14"),
+    (r"aggregators keep the array namespace", "C19"), (r"queued evaluators", "C17"), (r"utopia point", "C05"),
     (r"MixedNormalAggregator|MeanAggregator|ModeAggregator", "C19"), (r"GreedySelector", "C20"),
     (r"strict max_evals offset|cap on submitted jobs", "C03"), (r"evaluator timeout", "C03/C14"),
     (r"number of objectives from the first non-failed|non-finite value to a failure", "C04/C06"),
@@ -50,7 +51,8 @@ def main():
         # keep hand-written descriptions of earlier versions of this file
         prev = next((x for x in old.get("fixed", []) if x.get("subject") == subj), None)
         what = (e or {}).get("what") or (prev or {}).get("what") or subj
-        fixed.append({"property": (e or {}).get("property") or (prev or {}).get("property") or prop or "?", "commit": h, "subject": subj, "what": what,
+        pprev = (prev or {}).get("property")
+        fixed.append({"property": (e or {}).get("property") or (pprev if pprev not in (None, "?") else None) or prop or "?", "commit": h, "subject": subj, "what": what,
                       "line": f"fixed: property={(e or {}).get('property') or prop} {h} {what}"[:400]})
     out = {
         "_comment": "Committed by hand (tools/mkknown.py assembles it from known_findings.d/ and /repo's fix commits); never written at run time. "
